@@ -1,5 +1,5 @@
 \* C14 quick: simulated histories with reads and copies, exact
-\* run by hand:  cd spec && tlc -workers 8 RunGenSketch.tla -config cfg/C14__RunGenSketch__simulated_histories_with_reads_and_copies_exact.cfg -simulate num=125 -depth 17 -seed 2   (root module generated by the harness: see the .tla file next to this one; copy it to spec/ first)
+\* run by hand:  cd spec && tlc -workers 8 RunGenSketch.tla -config cfg/C14__RunGenSketch__simulated_histories_with_reads_and_copies_exact.cfg -simulate num=125 -depth 17 -seed 1   (root module generated by the harness: see the .tla file next to this one; copy it to spec/ first)
 INIT GenInit
 NEXT GenNext
 CONSTANTS
